@@ -143,7 +143,7 @@ pub fn check(c: &Case, cs: &mut CaseStats) -> Result<(), String> {
         cs.max("replicated_volume_diff_over_tol", (rv.volume - vols[i]).abs() / tolv);
         if tolv < 0.125 * vols[i] {
             let tolc = 2. * info.r * tolv / vols[i] + info.pos;
-            let dc = DVec3::from_array(rv.centroid).distance(cents[i]);
+            let dc = tol::active_distance(c, DVec3::from_array(rv.centroid), cents[i]);
             if dc > tolc {
                 return Err(format!("cell {i}: periodic centroid {:?} vs {:?} in the replicated tessellation (tol {:e})", cents[i], rv.centroid, tolc));
             }
